@@ -188,6 +188,13 @@ def run_check(prop: str, tier: str, rules_fn, repo: str, seed: int = 0, level: s
         for a in analysis_errors:
             print("  (also) analysis problem: %s" % a)
 
+    selfval = None
+    if tier == "thorough" and rc == 0 and not os.environ.get("XV_NO_SELFVAL"):
+        selfval, sv_errors = _self_validation(prop, repo)
+        for a in sv_errors:
+            print("ANALYSIS-ERROR property=%s %s" % (prop, a))
+        if sv_errors:
+            rc = 2
     cov = dict(
         explanation=explanation,
         obligations=n_inst,
@@ -200,6 +207,8 @@ def run_check(prop: str, tier: str, rules_fn, repo: str, seed: int = 0, level: s
         samples=samples[:40],
         exhaustive=False,
     )
+    if selfval is not None:
+        cov["mutation_self_validation"] = selfval
     extra_cov = getattr(rules_fn, "extra_coverage", None)
     if extra_cov:
         cov.update(extra_cov)
@@ -208,6 +217,33 @@ def run_check(prop: str, tier: str, rules_fn, repo: str, seed: int = 0, level: s
     print("[%s/%s] %d rule(s), %d obligation(s), %d discharged, %d violation(s), %d known finding(s), %.2fs -> exit %d" %
           (prop, tier, len(results), n_inst, n_ok, len(violations), len(known_hits), time.time() - t0, rc))
     return rc
+
+
+def _self_validation(prop: str, repo: str):
+    """thorough tier: apply every registered mutant of this property to a scratch copy of the *current* tree (outside /repo and
+    /verif, removed afterwards) and require the check to fire and name the expected rule; equivalent re-spellings must stay
+    silent.  A mutant whose pattern is gone is skipped; an applied but undetected mutant is a checker regression (exit 2)."""
+    import sys
+    st = os.path.join(VERIF, "selftest")
+    if st not in sys.path:
+        sys.path.insert(0, st)
+    try:
+        import harness
+    except Exception as e:  # pragma: no cover
+        return dict(status="unavailable", detail=repr(e)), []
+    t0 = time.time()
+    res = harness.run_all(repo, {prop}, jobs=min(16, os.cpu_count() or 4), verbose=False)
+    from collections import Counter
+    c = Counter(r["status"] for r in res)
+    errors = []
+    for r in res:
+        if r["status"] not in ("killed", "ok-silent", "known-limit", "skipped"):
+            errors.append("self-validation: mutant %s -> %s (the check no longer detects a change it is built to catch, or raises a false alarm "
+                          "on an equivalent re-spelling)" % (r["id"], r["status"]))
+    print("  self-validation: %d mutant(s) of %s on a scratch copy of the current tree: %s (%.1fs)" % (len(res), prop, dict(c), time.time() - t0))
+    return dict(mutants=len(res), outcome=dict(c), killed=[r["id"] for r in res if r["status"] == "killed"][:200],
+                silent_on_equivalent=[r["id"] for r in res if r["status"] == "ok-silent"],
+                skipped=[r["id"] for r in res if r["status"] == "skipped"], wall_s=round(time.time() - t0, 2)), errors
 
 
 def _write_evidence(path, prop, tier, seed, level, coverage, assumptions, wall, violations, status="ok"):
